@@ -358,32 +358,26 @@ class Precondition:
         :param old_to_new_param_names:
         :return:
         """
-        for _, condition in self:
-            if isinstance(condition, Predicate):
-                condition.change_signature(old_to_new_param_names)
+        for condition in self.operands:
+            # nested and universal conditions change their own operands and (in)equality conditions recursively.
+            condition.change_signature(old_to_new_param_names)
 
-            elif isinstance(condition, NumericalExpressionTree):
-                condition.change_signature(old_to_new_param_names)
-
-            elif isinstance(condition, Precondition):
-                condition.change_signature(old_to_new_param_names)
-
-        new_equality_conditions = set()
-        new_inequality_conditions = set()
-        for equality_condition in self.equality_preconditions:
-            param_1, param_2 = equality_condition
-            new_equality_conditions.add(
-                (old_to_new_param_names[param_1], old_to_new_param_names[param_2])
+        # the conditions are hashed according to their text so the set has to be rebuilt after the change.
+        self.operands = {condition for condition in self.operands}
+        self.equality_preconditions = {
+            (
+                old_to_new_param_names.get(param_1, param_1),
+                old_to_new_param_names.get(param_2, param_2),
             )
-
-        self.equality_preconditions = new_equality_conditions
-        for inequality_condition in self.inequality_preconditions:
-            param_1, param_2 = inequality_condition
-            new_inequality_conditions.add(
-                (old_to_new_param_names[param_1], old_to_new_param_names[param_2])
+            for param_1, param_2 in self.equality_preconditions
+        }
+        self.inequality_preconditions = {
+            (
+                old_to_new_param_names.get(param_1, param_1),
+                old_to_new_param_names.get(param_2, param_2),
             )
-
-        self.inequality_preconditions = new_inequality_conditions
+            for param_1, param_2 in self.inequality_preconditions
+        }
 
 
 class UniversalPrecondition(Precondition):
